@@ -41,6 +41,7 @@ fn main() {
         "C17" => c17::run(seed, tier, &mut out),
         "C13" => c13::run(seed, tier, &mut out),
         "C11" => c11::run(seed, tier, &mut out),
+        "C11T" => c11::run_trackers(seed, tier, &mut out),
         "C06" => c06::run(seed, tier, &mut out),
         "C01" => bar::run(seed, tier, &mut out, true, false),
         "C19" => bar::run(seed, tier, &mut out, false, false),
